@@ -171,6 +171,16 @@ def conductor_run(ctx, prop, fam, project, monitor, features, nontrivial, n_quic
             "cases_diverging": len(divs), "first": {"seed": d["seed"], "definition": d["definition"],
                                                     "inputs": d["inputs"], "ops": d["ops"],
                                                     "divergence": d["divergence"]}}
+    # cross-check of the extraction pipeline: the same model evaluated inside Coq (vm_compute) and by the driver
+    if ctx["model_ok"]:
+        try:
+            from harness import crosscheck
+            xn, xfails = crosscheck.run(seed, n=3 if tier == "quick" else 12)
+            out["model_vm_compute_crosschecked"] = xn
+            for f in xfails:
+                out["violations"].append(dict(f, property=prop))
+        except Exception:
+            out["model_vm_compute_crosschecked"] = 0
     # search for a concrete failing input when something is broken and the monitor was quiet
     real = [v for v in out["violations"] if not v.get("known")]
     if (divs or not ctx["proof_ok"] or not ctx["model_ok"]) and not real and monitor:
